@@ -100,22 +100,39 @@ def step (line : String) : String :=
           | some src => ev src
           | none => "?unset"
         s!"Tx={fld "Tx"} BlockN={fld "BlockN"} Removed={fld "Removed"} Raw={fld "Raw"}"
-  | ["sub", _, _, hs, ss, drop] =>
+  | "sub" :: _ :: types :: hs :: ss :: drop :: rest =>
     let H? := if hs == "-" then some [] else (hs.splitOn "|").mapM parseHLog
-    match H? with
-    | none => "bad-op"
-    | some H =>
-      match (ss.splitOn "/").mapM (parseStream H) with
-      | none => "bad-op"
-      | some streams =>
-        -- items a dropped endpoint never emitted are not part of the run
-        let streams := match drop.splitOn "@" with
-          | [e, pos] => match e.toNat?, pos.toNat? with
-            | some e, some pos => (List.range streams.length).zipWith (fun i (s : List DItem) => if i == e then s.take pos else s) streams
-            | _, _ => streams
-          | _ => streams
-        let out := sortStrings (runItems streams.flatten)
-        "out " ++ (if out.isEmpty then "-" else String.intercalate "|" out)
+    match H?, csvNat types with
+    | some H, some tl =>
+      let after? : Option (List (List DItem)) := match rest with
+        | [s2] => (s2.splitOn "/").mapM (parseStream H)
+        | _ => some []
+      match (ss.splitOn "/").mapM (parseStream H), after? with
+      | some streams, some after =>
+        match drop.splitOn "@" with
+        | [e, pos] =>
+          match e.toNat?, pos.toNat? with
+          | some e, some pos =>
+            -- items a dropped endpoint never emitted are not part of the run
+            let phase1 := (List.range streams.length).zipWith (fun i (s : List DItem) => if i == e then s.take pos else s) streams
+            -- every subscription of the failed endpoint reports an error; the Idx it carries is what the
+            -- REGENERATED table entry computes; the consumer disconnects that endpoint
+            let reports := tl.map (fun t => match entries.find? (fun en => en.index == t) with
+              | some en => match en.errs.find? (fun r => r.1 == "subErr") with
+                | some r => (reportIdx r.2.2 e).getD 999
+                | none => 999
+              | none => 999)
+            let phase2 := (List.range after.length).zipWith
+              (fun i (s : List DItem) => if i == e || reports.contains i then [] else s) after
+            let out := sortStrings (runItems (phase1.flatten ++ phase2.flatten))
+            let errs := sortStrings (reports.map toString)
+            "out " ++ (if out.isEmpty then "-" else String.intercalate "|" out) ++ " errs=" ++ String.intercalate "," errs
+          | _, _ => "bad-op"
+        | _ =>
+          let out := sortStrings (runItems (streams.flatten ++ after.flatten))
+          "out " ++ (if out.isEmpty then "-" else String.intercalate "|" out)
+      | _, _ => "bad-op"
+    | _, _ => "bad-op"
   | _ => "bad-op"
 
 end Dos.C18Drv
